@@ -49,6 +49,12 @@ def readsE : JsExpr → List Bytes
 
 def allIn (D : List Bytes) (xs : List Bytes) : Bool := xs.all fun x => D.contains x
 
+/-- the locals the first argument of a call reads -/
+def readsBase : DataBase → List Bytes
+  | .empty => []
+  | .all => []
+  | .expr e => readsE e
+
 mutual
   /-- `none`: some read is not covered; `some D'`: the variables that certainly hold a value afterwards -/
   def scopedStmt (D : List Bytes) : JsStmt → Option (List Bytes)
@@ -69,6 +75,8 @@ mutual
     | .switchS e cases => if allIn D (readsE e) && scopedCases D cases then some D else none
     | .ifPos lim body els =>
       if D.contains lim && (scopedStmts D body).isSome && (scopedStmts D els).isSome then some D else none
+    | .call buf _ base params =>
+      if D.contains buf && allIn D (readsBase base) && params.all (fun kv => allIn D (readsE kv.2)) then some D else none
   def scopedStmts (D : List Bytes) : JsStmts → Option (List Bytes)
     | .nil => some D
     | .cons s r =>
@@ -485,7 +493,21 @@ mutual
         obtain ⟨h1, _⟩ := toCases_scope ae cases buf sc rc hrc hs
         exact ⟨D, by simp [scopedStmts_one, scopedStmt, this, toAst_reads D sc hc value j hj], hc.stack h1, Sub.refl D⟩
       · cases h
-    | .call .., _, _, _, _, h, _, _, _ => by simp [toCmd] at h
+    | .call p name allData data params, buf, sc, r, D, h, hs, hc, hb => by
+      unfold toCmd at h
+      obtain ⟨base, rp, hbase, hrp, rfl⟩ := callJoin_some h
+      obtain ⟨a1, _⟩ := toParams_scope ae params sc rp hrp hs
+      obtain ⟨D', h1, hsub, hall⟩ := scoped_params params sc rp D hrp hs hc
+      have hbase' : allIn D' (readsBase base) = true := by
+        cases allData <;> cases data <;>
+          simp only [callBase, Option.some.injEq, Option.map_eq_some_iff, reduceCtorEq] at hbase
+        · subst hbase; rfl
+        · obtain ⟨j, hj, rfl⟩ := hbase
+          exact allIn_mono (toAst_reads D sc hc _ j hj) hsub
+        · subst hbase; rfl
+      refine ⟨D', ?_, (hc.mono hsub).stack a1, hsub⟩
+      rw [scopedStmts_append, h1]
+      simp only [Option.bind, scopedStmts_one, scopedStmt, hsub _ hb, hbase', hall, Bool.and_self, if_true]
     | .letContent p name body, buf, sc, r, D, h, hs, hc, hb => by
       unfold toCmd at h
       obtain ⟨hname, rbv, hrb, rfl⟩ := letJoin_some h
@@ -500,6 +522,36 @@ mutual
     | .namespace .., _, _, _, _, h, _, _, _ => by simp [toCmd] at h
     | .template .., _, _, _, _, h, _, _, _ => by simp [toCmd] at h
     | .soyDoc .., _, _, _, _, h, _, _, _ => by simp [toCmd] at h
+  theorem scoped_params : ∀ (ps : ParamList) (sc : Scope) (r : JsStmts × List (Bytes × JsExpr) × Scope) (D : List Bytes),
+      toParams ae ps sc = some r → ScOk sc → Covers D sc →
+      ∃ D', scopedStmts D r.1 = some D' ∧ Sub D D' ∧ r.2.1.all (fun kv => allIn D' (readsE kv.2)) = true
+    | .nil, sc, r, D, h, hs, hc => by
+      simp only [toParams, Option.some.injEq] at h; subst h
+      exact ⟨D, by simp [scopedStmts], Sub.refl D, by simp⟩
+    | .value p key e rest, sc, r, D, h, hs, hc => by
+      unfold toParams at h
+      obtain ⟨j, rr, hj, hrr, hr⟩ := valueParamJoin_some h rfl
+      simp only [Option.some.injEq] at hr; subst hr
+      obtain ⟨D', h1, hsub, hall⟩ := scoped_params rest sc rr D hrr hs hc
+      refine ⟨D', h1, hsub, ?_⟩
+      simp only [List.all_cons, Bool.and_eq_true]
+      exact ⟨allIn_mono (toAst_reads D sc hc e j hj) hsub, hall⟩
+    | .content p key body rest, sc, r, D, h, hs, hc => by
+      unfold toParams at h
+      obtain ⟨rb, rr, hrb, hrr, rfl⟩ := contentParamJoin_some h
+      have hs' : ScOk (sc.genname b!"param").2 := scOk_of_stack hs rfl (Nat.le_succ _)
+      obtain ⟨a1, a2⟩ := toBlock_scope ae body _ _ rb hrb hs'
+      have hc' : Covers ((sc.genname b!"param").1 :: D) (sc.genname b!"param").2 := (hc.mono (Sub.cons _ D)).stack rfl
+      obtain ⟨D1, h1, hsub1⟩ := scoped_block body _ _ rb _ hrb hs' hc' (contains_head _ _)
+      have hcr : Covers D1 rb.2 := ((hc.mono (Sub.cons _ D)).mono hsub1).stack a1
+      obtain ⟨D2, h2, hsub2, hall⟩ := scoped_params rest rb.2 rr D1 hrr (scOk_of_stack hs' a1 a2) hcr
+      refine ⟨D2, ?_, ((Sub.cons _ D).trans hsub1).trans hsub2, ?_⟩
+      · rw [scopedStmts_append]
+        simp [scopedStmts, scopedStmt, h1, h2]
+      · simp only [List.all_cons, Bool.and_eq_true]
+        refine ⟨?_, hall⟩
+        simp only [readsE, allIn, List.all_cons, List.all_nil, Bool.and_true]
+        exact hsub2 _ (hsub1 _ (contains_head _ _))
   theorem scoped_body : ∀ (b : Block) (buf : Bytes) (sc : Scope) (r : JsStmts × Scope) (D : List Bytes), toBody ae buf b sc = some r →
       ScOk sc → Covers D sc → D.contains buf = true → After D r
     | .mk p cmds, buf, sc, r, D, h, hs, hc, hb => by
